@@ -23,6 +23,20 @@ def build_static(case):
     if case.get('colls'):
         w.use_collisions(case['colls'], rng)
     grow_chain(w, case['n0'] + 1, rng)
+    big = case.get('big_spend')
+    if big:
+        # one flush that deletes more than 2*big rows: a fan-out to `big` outputs, flushed, then spent all at once
+        u = dict(w.utxos(w.tip))
+        script = w.hot[1]
+        t1 = w.fan_out_tx(u, w.height() + 1, big, script)
+        w.tip = w.make_block(w.tip, extra=[t1], ntx=0)
+        grow_chain(w, 1, rng, rich=False)
+        u = w.utxos(w.tip)
+        outs = [(t1.hash, i) for i in range(big) if (t1.hash, i) in u]
+        t2 = w.fan_in_tx(outs, u, w.hot[2])
+        w.tip = w.make_block(w.tip, extra=[t2], ntx=0)
+        grow_chain(w, 2, rng, rich=False)
+        w.features.add('big_spend')
     tips = {'A': w.tip}
     fk = case.get('fork')
     if fk:
@@ -176,6 +190,7 @@ def run_once(case, dbdir, logpath, crash_at=None, torn=None):
     elog = EventLog(logpath)
     vloop.Gate.counter = 0
     vloop.Gate.log = []
+    vloop.Gate.enabled = False        # sequential (eager) scheduling: no need to park jobs at failpoints
     vloop.Gate.crash_at = crash_at
     vloop.Gate.torn = torn
     vloop.Gate.on_event = elog.on_event
